@@ -356,15 +356,17 @@ type stats struct {
 }
 
 type sim struct {
-	ctx     context.Context
-	fx      *tmconsensustest.Fixture
-	n       int
-	vals    []tmconsensus.Validator
-	valSet  tmconsensus.ValidatorSet
-	pkHash  string
-	total   uint64
-	phSeq   int
-	appHash byte
+	ctx        context.Context
+	fx         *tmconsensustest.Fixture
+	n          int
+	vals       []tmconsensus.Validator
+	valSet     tmconsensus.ValidatorSet
+	pkHash     string
+	total      uint64
+	phSeq      int
+	appHash    byte
+	pastPHs    map[uint64][]tmconsensus.ProposedHeader // every proposal made so far, by height
+	reproposed int
 
 	committing, voting, next mview
 	// nil-voted rounds not yet handed to the strategy, oldest first; an update
@@ -453,9 +455,22 @@ func (s *sim) addPH(role string, proposer int) []byte {
 	}
 	s.phSeq++
 	ph := s.fx.NextProposedHeader([]byte(fmt.Sprintf("data-%d-%d-%d", v.h, v.r, s.phSeq)), proposer)
+	if old := s.pastPHs[v.h]; len(old) > 0 && s.phSeq%4 == 0 {
+		// the block of an earlier proposal of this height proposed again (same header, same
+		// hash): in a later round after a round that did not commit it, or by a second
+		// proposer in the same round. Round, proposer, annotations and signature differ, so it
+		// is another proposal, of another view.
+		ph = old[(s.phSeq/4)%len(old)]
+		ph.Header.PrevCommitProof.Proofs = maps.Clone(ph.Header.PrevCommitProof.Proofs)
+		s.reproposed++
+	}
 	ph.Round = v.r
 	ph.Annotations = tmconsensus.Annotations{User: []byte(fmt.Sprintf("u%d", s.phSeq))}
 	s.fx.SignProposal(s.ctx, &ph, proposer)
+	if s.pastPHs == nil {
+		s.pastPHs = map[uint64][]tmconsensus.ProposedHeader{}
+	}
+	s.pastPHs[v.h] = append(s.pastPHs[v.h], ph)
 	v.phs = append(v.phs, ph)
 	v.version++
 	v.dirty = true
